@@ -1,6 +1,6 @@
 (* C16 - prelude functions and macros compute what their documentation says.
    Only statements; proofs in Eval/PreludeProofs.v. *)
-From PL Require Import Eval.EvalRules Eval.PreludeState Eval.PreludeProofs Eval.CatchProofs Eval.LengthProofs Eval.RangeProofs Eval.FoldProofs Eval.MapProofs Eval.ZipProofs Eval.LastProofs Eval.InitProofs Eval.FoldrProofs.
+From PL Require Import Eval.EvalRules Eval.PreludeState Eval.PreludeProofs Eval.CatchProofs Eval.MacroProofs2 Eval.LengthProofs Eval.RangeProofs Eval.FoldProofs Eval.MapProofs Eval.ZipProofs Eval.LastProofs Eval.InitProofs Eval.FoldrProofs.
 From Coq Require Import ZArith.
 From Coq Require Import String.
 Local Open Scope string_scope.
@@ -132,3 +132,12 @@ Theorem C16_foldr_instance : forall xs st d, has_prelude st -> (d + 5 <= MAXD)%N
   exists fuel st', eval_loop fuel st fr_body (fr_env cons_native_v VNil (vec_to_list xs)) pm d = (st', ROk (fold_right VCons VNil xs)) /\ has_prelude st'.
 Proof. exact foldr_cons_instance. Qed.
 Print Assumptions C16_foldr_instance.
+
+(* apply and throw, for all operand forms (throw: for every number of key/value forms) *)
+Theorem C16_apply_expansion : forall F A, macro_expands_within 4 (s "apply") [F; A] (vec_to_list [vec_to_list [vsym "unrest"; F]; A]).
+Proof. exact apply_expansion. Qed.
+Print Assumptions C16_apply_expansion.
+
+Theorem C16_throw_expansion : forall body, macro_expands_within 4 (s "throw") body (vec_to_list [vsym "signal"; VCons (vsym "list") (vec_to_list body)]).
+Proof. exact throw_expansion. Qed.
+Print Assumptions C16_throw_expansion.
